@@ -1439,6 +1439,14 @@ def run(ctx):
         ctx.case(('cascade', tuple(answers)), nontrivial=any(o[0] == 'destroy' for o in ops),
                  sample={'cascade': [list(o) for o in ops[:10]], 'answers': answers[-2:]}, kind='cascade history')
         report_cascade(ctx, dc, ops, fails)
+    # commit / rollback as ConnectionHub.doInTransaction drives them (classes bound to a hub): several committed calls in a row
+    # while the program keeps its instances across them — no stale value after any of the commits (the stream of harness/c08.py;
+    # the plans with a BaseException are left to C08, where the recorded finding about Transaction.__del__ belongs)
+    from harness import c08 as _c08
+    e8 = _c08.env()
+    for var in (('1', 'e'), ('0', 'l')):
+        _c08.select_variant(e8, *var)
+        _c08.chained_runs(ctx, e8, only_plans=(0, 1, 2), prefix='C07:doInTransaction-chain')
     # inheritable classes (parent + child table) through the transaction; selects and aggregates on both sides
     for name, dc, ops in INHERIT_CORPUS:
         answers, fails = run_inherit(dc, ops)
@@ -1487,6 +1495,9 @@ def replay(case):
     if case.get('lazy'):
         lines, impl, fails = run_lazy(True, [tuple(o) for o in case['ops']])
         return not fails, '\n'.join('%-22s -> %s' % (l, i) for l, i in zip(lines, impl)) + '\n' + '\n'.join('ORACLE: %s' % w for _, w, _ in fails)
+    if case.get('chain'):
+        from harness import c08 as _c08
+        return _c08.replay(case)
     if case.get('inherit'):
         answers, fails = run_inherit(case['dc'], [tuple(o) for o in case['ops']])
         return not fails, '\n'.join(answers + ['ORACLE: %s' % w for _, w, _ in fails])
